@@ -71,9 +71,12 @@ def try_shapes(full):
 
 
 def with_shapes(full):
+    """managers: tuple of suppress flags; a flag may also be "Ts"/"Fs" = the manager EXPRESSION is statement-producing,
+    (do (setv z 1) (cm i s)), which makes the compiler nest a second `with` statement."""
     one = [((s,),) for s in (False, True)]
     two = [((a, b),) for a in (False, True) for b in (False, True)]
-    shapes = one + (two if full else [((False, True),)])
+    stm = [((False, "Fs"),), ((True, "Ts"),), (("Fs", False),)]
+    shapes = one + (two + stm if full else [((False, True),), ((False, "Fs"),)])
     return [("with", s[0]) for s in shapes]
 
 
@@ -86,6 +89,7 @@ def slots_of(shape):
         _, hs, el, fin = shape
         s = ["body", "body+pt"]
         s += [f"h{i}" for i in range(len(hs))]
+        s += [f"h{i}+pt" for i in range(len(hs))]
         if el:
             s.append("else")
         if fin:
@@ -123,6 +127,8 @@ class Numbered:
 
     def _fill(self, subs, slot):
         sub = subs.get(slot)
+        if slot + "+pt" in subs and slot != "body":
+            return ("seq", self._num(subs[slot + "+pt"]), self._pt())
         if slot == "body":
             if "body+pt" in subs:
                 return ("seq", self._num(subs["body+pt"]), self._pt())
@@ -148,13 +154,13 @@ class Numbered:
             i = next(self.n)
             for ph in ("new", "enter", "exit"):
                 self.points.append(("cm", i, ph))
-            mgrs.append((i, s))
+            mgrs.append((i, s in (True, "Ts"), s in ("Ts", "Fs")))
         return ("with", tuple(mgrs), self._fill(subs, "body"))
 
 
 def render(t):
     if t[0] == "pt":
-        return f"(pt {t[1]})"
+        return f"(pt {t[1]} e)"
     if t[0] == "seq":
         return f"{render(t[1])} {render(t[2])}"
     if t[0] == "try":
@@ -170,10 +176,13 @@ def render(t):
             parts.append(f"(finally {render(final)})")
         return "(try " + " ".join(parts) + ")"
     _, mgrs, body = t
+
+    def mexpr(i, s, st):
+        return f"(do (setv z 1) (cm {i} {s}))" if st else f"(cm {i} {s})"
     if len(mgrs) == 1:
-        spec = f"(cm {mgrs[0][0]} {mgrs[0][1]})"
+        spec = mexpr(*mgrs[0])
     else:
-        spec = " ".join(f"_ (cm {i} {s})" for i, s in mgrs)
+        spec = " ".join(f"_ {mexpr(i, s, st)}" for i, s, st in mgrs)
     return f"(with [{spec}] {render(body)})"
 
 
@@ -193,8 +202,10 @@ class World:
         self.hit = 0
         w = self
 
-        def pt(i):
-            w.log.append(("pt", i))
+        def pt(i, e="<no-e>"):
+            # every effect point also reads the variable `e`: the except variable inside an `[e ValueError]`
+            # handler, the same-named outer variable ("outer") everywhere else
+            w.log.append(("pt", i, type(e).__name__))
             w._maybe(("pt", i))
             return i
 
@@ -226,41 +237,41 @@ class World:
             raise EXC[k]()
 
 
-def ref_eval(t, w):
-    """Python's own semantics."""
+def ref_eval(t, w, e="outer"):
+    """Python's own semantics.  `e` is the value the Hy variable `e` has at this point."""
     if t[0] == "pt":
-        return w.pt(t[1])
+        return w.pt(t[1], e)
     if t[0] == "seq":
-        ref_eval(t[1], w)
-        return ref_eval(t[2], w)
+        ref_eval(t[1], w, e)
+        return ref_eval(t[2], w, e)
     if t[0] == "try":
         _, body, handlers, orelse, final = t
         try:
             try:
-                v = ref_eval(body, w)
+                v = ref_eval(body, w, e)
             except BaseException as ex:
                 for k, note, h in handlers:
                     if (k == "B" or (k in ("V", "E") and isinstance(ex, ValueError)) or (k == "K" and isinstance(ex, KeyError))
                             or (k == "T" and isinstance(ex, (ValueError, KeyError)))):
                         if k == "E":
                             w.pte(note, ex)
-                        v = ref_eval(h, w)
+                        v = ref_eval(h, w, ex if k == "E" else e)
                         break
                 else:
                     raise
             else:
                 if orelse is not None:
-                    v = ref_eval(orelse, w)
+                    v = ref_eval(orelse, w, e)
         finally:
             if final is not None:
-                ref_eval(final, w)
+                ref_eval(final, w, e)
         return v
     _, mgrs, body = t
 
     def nest(ms):
         if not ms:
-            return ref_eval(body, w)
-        i, sup = ms[0]
+            return ref_eval(body, w, e)
+        i, sup, _st = ms[0]
         c = w.cm(i, sup)
         v = None
         with c:
@@ -367,7 +378,7 @@ def check_program(acc, prog, only=None, sample=False):
             # reference
             rw = World(plan)
             try:
-                rv = ("val", repr(ref_eval(num.tree, rw)))
+                rv = ("val", repr(ref_eval(num.tree, rw, "outer")))
             except BaseException as ex:
                 rv = ("exc", type(ex).__name__)
             # implementation
@@ -410,7 +421,7 @@ def _later_managers(t, acc=None):
     if acc is None:
         acc = set()
     if t[0] == "with":
-        for i, _s in t[1][1:]:
+        for i, _s, _st in t[1][1:]:
             acc.add(i)
         _later_managers(t[2], acc)
     elif t[0] == "seq":
@@ -440,7 +451,7 @@ def _sig(prog):
         inner = ",".join(f"{k}={_sig(v)}" for k, v in prog[4].items())
         return f"try[{''.join(prog[1])}{'e' if prog[2] else ''}{'f' if prog[3] else ''}]" + (f"({inner})" if inner else "")
     inner = ",".join(f"{k}={_sig(v)}" for k, v in prog[2].items())
-    return f"with[{''.join('s' if s else 'n' for s in prog[1])}]" + (f"({inner})" if inner else "")
+    return f"with[{''.join(str(s)[0].lower() + ('S' if isinstance(s, str) else '') for s in prog[1])}]" + (f"({inner})" if inner else "")
 
 
 def run_shard(shard, tier):
